@@ -17,6 +17,9 @@ SET_PRELUDE = """
 pub uninterp spec fn kind_of(id: int) -> int;
 #[derive(PartialEq, Eq, Structural)]
 pub enum ValueKind { Empty, K(int) }
+// `std::mem::discriminant(&kind)`: only the variant, not its payload
+#[verifier::external_body]
+pub fn discriminant_of(k: &ValueKind) -> (d: u8) ensures d == (match k { ValueKind::Empty => 0u8, ValueKind::K(_) => 1u8 }) { unimplemented!() }
 pub struct Value { pub id: int }
 impl Value {
   #[verifier::external_body]
@@ -204,6 +207,7 @@ def literal_unit(plan):
             while frag[k] in " \t\r\n":
                 k += 1
             frag = frag[:m.start()] + "return None" + frag[k:]
+        frag = re.sub(r"\bstd::mem::discriminant\(", "discriminant_of(", frag)
         frag, n = re.subn(r"for\s+el\s+in\s+&elements\s*\{", "for k_ in 0..elements.len()\n    invariant forall|j: int| 0 <= j < k_ ==> ValueKind::K(kind_of(#[trigger] elements@[j].id)) == element_kind,\n  { let el = &elements[k_];", frag)
         if n != 1 or "Err(" in frag:
             raise AnchorLost("set(): the kind-check loop `for el in &elements` not found")
